@@ -838,8 +838,8 @@ FAMS = {
            "WI: a = b | b or c | b and c | b but not c with b in {[user:*], [employee:*], [user:*, employee:*]}, c in {[user], [user, employee], [user:*]} (an intersection/exclusion that removes a type whose public restriction stays reachable; 36 models)"),
     "WU": ({"R": 3, "L10": M(0, 11, 12), "L20": M(16, 17), "OP0": 1, "L11": M(0, 11, 12), "L21": M(16, 17), "OP1": 1, "L12": M(0, 11, 12), "L22": M(16, 17), "OP2": 1},
            "WU: three relations, each [user] | [doc#y, user:*] | [employee:*, doc#y], optionally `or y` / `or z` (tuple cycles through several union nodes with public types found above them; 729 models)"),
-    "S1": ({"R": 2, "SINGLE0": 1, "L10": M(0, 1, 4, 16, 19), "L20": M(16, 19), "L11": M(0, 4, 16)},
-           "S1: a = leaf | leaf op second | union(leaf) | intersection(leaf) | union(union(leaf)) | union(leaf) op second (operators with ONE operand, JSON-only), b = [user] | [doc#a] | a"),
+    "S1": ({"R": 2, "SINGLE0": 1, "DUPTHIS0": 1, "L10": M(0, 1, 4, 16, 19), "L20": M(16, 19), "L11": M(0, 4, 16)},
+           "S1: a = leaf | leaf op second | union(leaf) | intersection(leaf) | union(union(leaf)) | union(leaf) op second (operators with ONE operand) | this op this (the direct assignment twice) - JSON-only shapes, b = [user] | [doc#a] | a"),
     "L": ({"R": 3, "L10": M(0, 4, 5, 9, 10, 16), "L11": M(0, 4, 5, 9, 10, 16, 17), "L12": M(0, 4, 5, 9, 10, 16, 17), "L22": M(16, 17), "OP2": 3},
           "L: three relations with multi-userset restrictions (interlocking tuple cycles)"),
 }
